@@ -778,6 +778,23 @@ pub struct Run {
     /// the last finalize statement executed was a plain `finalize()` that returned ok: the XML in the
     /// file is then exactly what the writer serialised (no caller transformer in between)
     pub plain_final: bool,
+    /// number of device operations issued when the call that produced `results[i]` returned
+    pub ops_after: Vec<u64>,
+    /// device operations issued by `E57Writer::new`
+    pub ops_new: u64,
+}
+
+/// results of the API calls of a run, each stamped with the device operation count at its return
+struct Rs {
+    v: Vec<String>,
+    ops: Vec<u64>,
+    dev: SimDev,
+}
+impl Rs {
+    fn push(&mut self, s: String) {
+        self.v.push(s);
+        self.ops.push(self.dev.ops());
+    }
 }
 
 fn res<T>(r: &std::result::Result<e57::Result<T>, String>) -> &'static str {
@@ -825,16 +842,17 @@ pub fn transformer(mode: &str) -> Box<dyn Fn(String) -> e57::Result<String>> {
 
 /// run a program on the real crate over the given device
 pub fn execute(prog: &Program, dev: &SimDev) -> Run {
-    let mut results: Vec<String> = vec![];
+    let mut results = Rs { v: vec![], ops: vec![], dev: dev.clone() };
     let mut panicked = false;
     let mut plain_final = false;
     let created = guarded(|| E57Writer::new(dev.clone(), &prog.guid));
     let mut w = match created {
         Ok(Ok(w)) => w,
         _ => {
-            return Run { results: vec!["NEWERR".into()], file: dev.data(), panicked: created.is_err(), plain_final: false };
+            return Run { results: vec!["NEWERR".into()], file: dev.data(), panicked: created.is_err(), plain_final: false, ops_after: vec![dev.ops()], ops_new: dev.ops() };
         }
     };
+    let ops_new = dev.ops();
     'outer: for s in &prog.stmts {
         match s {
             Stmt::Ext(ns, url) => {
@@ -1047,7 +1065,7 @@ pub fn execute(prog: &Program, dev: &SimDev) -> Run {
         }
     }
     let _ = guarded(|| drop(w));
-    Run { results, file: dev.data(), panicked, plain_final }
+    Run { results: results.v, file: dev.data(), panicked, plain_final, ops_after: results.ops, ops_new }
 }
 
 /// library version string the writer embeds (read once from a file written by the real crate)
